@@ -1,1 +1,1476 @@
-//! Virtual network for the connection-layer monitors (filled in with C01).
+//! Virtual network for the connection-layer monitors (C01–C04, C20).
+//!
+//! Two real `Connection`s, a shared virtual clock, two directed multisets of
+//! in-flight datagrams and an adversary that may deliver any of them, drop or
+//! duplicate it. The online oracles (delivery prefix, wire well-formedness,
+//! finite deadline, callback budget) live here; each monitor forwards the
+//! clauses it owns.
+
+use crate::catch;
+use crate::fnv1a;
+use crate::hex_short;
+use crate::Panicked;
+use crate::Rng;
+use libtw2_net::connection as c6;
+use libtw2_net::connection7 as c7;
+use libtw2_net::protocol as p6;
+use libtw2_net::protocol7 as p7;
+use libtw2_net::Timeout;
+use libtw2_net::Timestamp;
+use serde_json::json;
+use serde_json::Value;
+use std::collections::HashSet;
+use std::convert::Infallible;
+
+pub const BUDGET_PANIC: &str = "VERIF callback budget exceeded";
+pub const START_US: u64 = 1_000_000_000;
+
+#[derive(Clone, Copy, Debug, PartialEq, Eq, Hash)]
+pub enum Variant {
+    V6Token,
+    V6NoToken,
+    V7,
+}
+
+impl Variant {
+    pub fn name(self) -> &'static str {
+        match self {
+            Variant::V6Token => "0.6+token",
+            Variant::V6NoToken => "0.6",
+            Variant::V7 => "0.7",
+        }
+    }
+    pub fn all() -> [Variant; 3] {
+        [Variant::V6Token, Variant::V6NoToken, Variant::V7]
+    }
+}
+
+// ------------------------------------------------------------------ callback
+
+/// The harness side of `Callback`: virtual clock, outbox, scripted randomness
+/// and a call counter that turns an unbounded loop inside one API call into a
+/// deterministic panic (see DESIGN.md C02).
+#[derive(Clone, Debug)]
+pub struct Cb {
+    pub now_us: u64,
+    pub sent: Vec<Vec<u8>>,
+    pub rng: Rng,
+    /// Values handed out by `secure_random` before the PRNG is used.
+    pub script: Vec<[u8; 4]>,
+    pub randoms: Vec<Vec<u8>>,
+    pub calls: u64,
+    pub budget: u64,
+}
+
+impl Cb {
+    pub fn new(seed: u64) -> Cb {
+        Cb {
+            now_us: START_US,
+            sent: Vec::new(),
+            rng: Rng::new(seed),
+            script: Vec::new(),
+            randoms: Vec::new(),
+            calls: 0,
+            budget: 100_000,
+        }
+    }
+    fn bump(&mut self) {
+        self.calls += 1;
+        if self.calls > self.budget {
+            panic!("{}", BUDGET_PANIC);
+        }
+    }
+    fn random(&mut self, buffer: &mut [u8]) {
+        self.bump();
+        if buffer.len() == 4 && !self.script.is_empty() {
+            buffer.copy_from_slice(&self.script.remove(0));
+        } else {
+            self.rng.fill(buffer);
+        }
+        self.randoms.push(buffer.to_vec());
+    }
+    fn push(&mut self, data: &[u8]) {
+        self.bump();
+        self.sent.push(data.to_vec());
+    }
+    fn time(&mut self) -> Timestamp {
+        self.bump();
+        Timestamp::from_usecs_since_epoch(self.now_us)
+    }
+}
+
+impl c6::Callback for Cb {
+    type Error = Infallible;
+    fn secure_random(&mut self, buffer: &mut [u8]) {
+        self.random(buffer)
+    }
+    fn send(&mut self, buffer: &[u8]) -> Result<(), Infallible> {
+        self.push(buffer);
+        Ok(())
+    }
+    fn time(&mut self) -> Timestamp {
+        Cb::time(self)
+    }
+}
+
+impl c7::Callback for Cb {
+    type Error = Infallible;
+    fn secure_random(&mut self, buffer: &mut [u8]) {
+        self.random(buffer)
+    }
+    fn send(&mut self, buffer: &[u8]) -> Result<(), Infallible> {
+        self.push(buffer);
+        Ok(())
+    }
+    fn time(&mut self) -> Timestamp {
+        Cb::time(self)
+    }
+}
+
+// ------------------------------------------------------------------ endpoint abstraction
+
+#[derive(Clone, Debug, PartialEq, Eq)]
+pub enum Event {
+    Connless(Vec<u8>),
+    Chunk(Vec<u8>, bool),
+    Ready,
+    Disconnect(Vec<u8>),
+}
+
+impl Event {
+    pub fn to_json(&self) -> Value {
+        match self {
+            Event::Connless(d) => json!({"connless": hex_short(d)}),
+            Event::Chunk(d, v) => json!({"chunk": hex_short(d), "vital": v}),
+            Event::Ready => json!("ready"),
+            Event::Disconnect(r) => json!({"disconnect": hex_short(r)}),
+        }
+    }
+}
+
+pub fn timeout_us(t: Timeout) -> Option<u64> {
+    t.to_opt().map(|t| t.as_usecs_since_epoch())
+}
+
+/// A parsed wire chunk (owned).
+#[derive(Clone, Debug)]
+pub struct WireChunk {
+    pub data: Vec<u8>,
+    pub vital: Option<(u16, bool)>,
+}
+
+/// What the library's own reader makes of a datagram.
+#[derive(Clone, Debug)]
+pub enum Parsed {
+    Error(String),
+    Connless(Vec<u8>),
+    Control { name: String, ack: u16 },
+    Chunks {
+        ack: u16,
+        request_resend: bool,
+        num_chunks: u8,
+        chunks: Vec<WireChunk>,
+        compressed: bool,
+    },
+}
+
+pub trait Conn: Sized {
+    const V7: bool;
+    fn new() -> Self;
+    fn connect(&mut self, cb: &mut Cb);
+    fn disconnect(&mut self, cb: &mut Cb, reason: &[u8]);
+    /// `Err(())` = TooLongData.
+    fn send(&mut self, cb: &mut Cb, data: &[u8], vital: bool) -> Result<(), ()>;
+    fn send_connless(&mut self, cb: &mut Cb, data: &[u8]) -> Result<(), ()>;
+    fn flush(&mut self, cb: &mut Cb);
+    fn tick(&mut self, cb: &mut Cb);
+    fn needs_tick(&self) -> Option<u64>;
+    /// Feeds a datagram and drains the event iterator. Returns events and the
+    /// `Debug` rendering of the warnings.
+    fn feed(&mut self, cb: &mut Cb, data: &[u8]) -> (Vec<Event>, Vec<String>);
+    fn clone_hook(&self) -> Self;
+    fn fingerprint(&self) -> String;
+    fn state_name(&self) -> &'static str;
+    fn unacked(&self) -> usize;
+    fn queued(&self) -> (usize, usize);
+    fn seq(&self) -> Option<(u16, u16, bool)>;
+    fn send_timer(&self) -> Option<u64>;
+    /// Parses a datagram with the library's own reader. `has_token`: the true
+    /// token mode (0.6 only).
+    fn parse(data: &[u8], has_token: bool) -> (Parsed, Vec<String>);
+    /// Largest payload `send` accepts according to the API constant.
+    fn max_payload() -> usize;
+}
+
+fn drain6(it: c6::ReceivePacket) -> Vec<Event> {
+    it.map(|c| match c {
+        c6::ReceiveChunk::Connless(d) => Event::Connless(d.to_vec()),
+        c6::ReceiveChunk::Connected(d, v) => Event::Chunk(d.to_vec(), v),
+        c6::ReceiveChunk::Ready => Event::Ready,
+        c6::ReceiveChunk::Disconnect(r) => Event::Disconnect(r.to_vec()),
+    })
+    .collect()
+}
+
+fn drain7(it: c7::ReceivePacket) -> Vec<Event> {
+    it.map(|c| match c {
+        c7::ReceiveChunk::Connless(d) => Event::Connless(d.to_vec()),
+        c7::ReceiveChunk::Connected(d, v) => Event::Chunk(d.to_vec(), v),
+        c7::ReceiveChunk::Ready => Event::Ready,
+        c7::ReceiveChunk::Disconnect(r) => Event::Disconnect(r.to_vec()),
+    })
+    .collect()
+}
+
+fn unwrap_inf<T>(r: Result<T, Infallible>) -> T {
+    match r {
+        Ok(v) => v,
+        Err(e) => match e {},
+    }
+}
+
+impl Conn for c6::Connection {
+    const V7: bool = false;
+    fn new() -> Self {
+        c6::Connection::new()
+    }
+    fn connect(&mut self, cb: &mut Cb) {
+        unwrap_inf(c6::Connection::connect(self, cb))
+    }
+    fn disconnect(&mut self, cb: &mut Cb, reason: &[u8]) {
+        unwrap_inf(c6::Connection::disconnect(self, cb, reason))
+    }
+    fn send(&mut self, cb: &mut Cb, data: &[u8], vital: bool) -> Result<(), ()> {
+        match c6::Connection::send(self, cb, data, vital) {
+            Ok(()) => Ok(()),
+            Err(c6::Error::TooLongData) => Err(()),
+            Err(c6::Error::Callback(e)) => match e {},
+        }
+    }
+    fn send_connless(&mut self, cb: &mut Cb, data: &[u8]) -> Result<(), ()> {
+        match c6::Connection::send_connless(self, cb, data) {
+            Ok(()) => Ok(()),
+            Err(c6::Error::TooLongData) => Err(()),
+            Err(c6::Error::Callback(e)) => match e {},
+        }
+    }
+    fn flush(&mut self, cb: &mut Cb) {
+        unwrap_inf(c6::Connection::flush(self, cb))
+    }
+    fn tick(&mut self, cb: &mut Cb) {
+        unwrap_inf(c6::Connection::tick(self, cb))
+    }
+    fn needs_tick(&self) -> Option<u64> {
+        timeout_us(c6::Connection::needs_tick(self))
+    }
+    fn feed(&mut self, cb: &mut Cb, data: &[u8]) -> (Vec<Event>, Vec<String>) {
+        let mut buf = [0u8; 2048];
+        let mut warn = crate::Warnings::new();
+        let (it, res) = c6::Connection::feed(self, cb, &mut warn, data, &mut buf[..]);
+        unwrap_inf(res);
+        (drain6(it), warn.0)
+    }
+    fn clone_hook(&self) -> Self {
+        self.verif_clone()
+    }
+    fn fingerprint(&self) -> String {
+        self.verif_fingerprint()
+    }
+    fn state_name(&self) -> &'static str {
+        self.verif_state_name()
+    }
+    fn unacked(&self) -> usize {
+        self.verif_unacked()
+    }
+    fn queued(&self) -> (usize, usize) {
+        self.verif_queued()
+    }
+    fn seq(&self) -> Option<(u16, u16, bool)> {
+        self.verif_seq()
+    }
+    fn send_timer(&self) -> Option<u64> {
+        timeout_us(self.verif_send_timer())
+    }
+    fn parse(data: &[u8], has_token: bool) -> (Parsed, Vec<String>) {
+        let mut buf = [0u8; 2048];
+        let mut warn = crate::Warnings::new();
+        let compressed = data.len() >= 3 && (data[0] >> 4) & p6::PACKETFLAG_COMPRESSION != 0 && (data[0] >> 4) & p6::PACKETFLAG_CONNLESS == 0;
+        let r = p6::Packet::read(&mut warn, data, Some(has_token), &mut buf[..]);
+        let parsed = match r {
+            Err(e) => Parsed::Error(format!("{:?}", e)),
+            Ok(p6::Packet::Connless(d)) => Parsed::Connless(d.to_vec()),
+            Ok(p6::Packet::Connected(c)) => match c.type_ {
+                p6::ConnectedPacketType::Control(ctrl) => Parsed::Control {
+                    name: format!("{:?}", ctrl),
+                    ack: c.ack,
+                },
+                p6::ConnectedPacketType::Chunks(rr, n, payload) => {
+                    let mut it = p6::ChunksIter::new(payload, n);
+                    let mut chunks = Vec::new();
+                    while let Some(ch) = it.next_warn(&mut warn) {
+                        chunks.push(WireChunk {
+                            data: ch.data.to_vec(),
+                            vital: ch.vital,
+                        });
+                    }
+                    Parsed::Chunks {
+                        ack: c.ack,
+                        request_resend: rr,
+                        num_chunks: n,
+                        chunks,
+                        compressed,
+                    }
+                }
+            },
+        };
+        (parsed, warn.0)
+    }
+    fn max_payload() -> usize {
+        p6::MAX_PAYLOAD
+    }
+}
+
+impl Conn for c7::Connection {
+    const V7: bool = true;
+    fn new() -> Self {
+        c7::Connection::new()
+    }
+    fn connect(&mut self, cb: &mut Cb) {
+        unwrap_inf(c7::Connection::connect(self, cb))
+    }
+    fn disconnect(&mut self, cb: &mut Cb, reason: &[u8]) {
+        unwrap_inf(c7::Connection::disconnect(self, cb, reason))
+    }
+    fn send(&mut self, cb: &mut Cb, data: &[u8], vital: bool) -> Result<(), ()> {
+        match c7::Connection::send(self, cb, data, vital) {
+            Ok(()) => Ok(()),
+            Err(c7::Error::TooLongData) => Err(()),
+            Err(c7::Error::Callback(e)) => match e {},
+        }
+    }
+    fn send_connless(&mut self, cb: &mut Cb, data: &[u8]) -> Result<(), ()> {
+        match c7::Connection::send_connless(self, cb, data) {
+            Ok(()) => Ok(()),
+            Err(c7::Error::TooLongData) => Err(()),
+            Err(c7::Error::Callback(e)) => match e {},
+        }
+    }
+    fn flush(&mut self, cb: &mut Cb) {
+        unwrap_inf(c7::Connection::flush(self, cb))
+    }
+    fn tick(&mut self, cb: &mut Cb) {
+        unwrap_inf(c7::Connection::tick(self, cb))
+    }
+    fn needs_tick(&self) -> Option<u64> {
+        timeout_us(c7::Connection::needs_tick(self))
+    }
+    fn feed(&mut self, cb: &mut Cb, data: &[u8]) -> (Vec<Event>, Vec<String>) {
+        let mut buf = [0u8; 2048];
+        let mut warn = crate::Warnings::new();
+        let (it, res) = c7::Connection::feed(self, cb, &mut warn, data, &mut buf[..]);
+        unwrap_inf(res);
+        (drain7(it), warn.0)
+    }
+    fn clone_hook(&self) -> Self {
+        self.verif_clone()
+    }
+    fn fingerprint(&self) -> String {
+        self.verif_fingerprint()
+    }
+    fn state_name(&self) -> &'static str {
+        self.verif_state_name()
+    }
+    fn unacked(&self) -> usize {
+        self.verif_unacked()
+    }
+    fn queued(&self) -> (usize, usize) {
+        self.verif_queued()
+    }
+    fn seq(&self) -> Option<(u16, u16, bool)> {
+        self.verif_seq()
+    }
+    fn send_timer(&self) -> Option<u64> {
+        timeout_us(self.verif_send_timer())
+    }
+    fn parse(data: &[u8], _has_token: bool) -> (Parsed, Vec<String>) {
+        let mut buf = [0u8; 2048];
+        let mut warn = crate::Warnings::new();
+        let flags = if data.is_empty() { 0 } else { (data[0] >> 2) & 0xf };
+        let compressed = data.len() >= 7 && flags & p7::PACKETFLAG_COMPRESSION != 0 && flags & p7::PACKETFLAG_CONNLESS == 0;
+        let r = p7::Packet::read(&mut warn, data, &mut buf[..]);
+        let parsed = match r {
+            Err(e) => Parsed::Error(format!("{:?}", e)),
+            Ok(p7::Packet::Connless(d)) => Parsed::Connless(d.payload.to_vec()),
+            Ok(p7::Packet::Connected(c)) => match c.type_ {
+                p7::ConnectedPacketType::Control(ctrl) => Parsed::Control {
+                    name: format!("{:?}", ctrl),
+                    ack: c.ack,
+                },
+                p7::ConnectedPacketType::Chunks(rr, n, payload) => {
+                    let mut it = p7::ChunksIter::new(payload, n);
+                    let mut chunks = Vec::new();
+                    while let Some(ch) = it.next_warn(&mut warn) {
+                        chunks.push(WireChunk {
+                            data: ch.data.to_vec(),
+                            vital: ch.vital,
+                        });
+                    }
+                    Parsed::Chunks {
+                        ack: c.ack,
+                        request_resend: rr,
+                        num_chunks: n,
+                        chunks,
+                        compressed,
+                    }
+                }
+            },
+        };
+        (parsed, warn.0)
+    }
+    fn max_payload() -> usize {
+        p7::MAX_PAYLOAD
+    }
+}
+
+// ------------------------------------------------------------------ independent header classifier
+
+/// The harness's own reading of the packet header (doc/packet*.md): used where
+/// the oracle must not depend on the library's reader.
+#[derive(Clone, Copy, Debug, PartialEq, Eq)]
+pub enum Kind {
+    Connless,
+    Control(u8),
+    Chunks,
+    Short,
+}
+
+pub fn classify(v7: bool, d: &[u8]) -> Kind {
+    if !v7 {
+        if d.len() < 3 {
+            return Kind::Short;
+        }
+        let flags = d[0] >> 4;
+        if flags & 2 != 0 {
+            return Kind::Connless;
+        }
+        if flags & 1 != 0 {
+            return match d.get(3) {
+                Some(&c) => Kind::Control(c),
+                None => Kind::Short,
+            };
+        }
+        Kind::Chunks
+    } else {
+        if d.is_empty() {
+            return Kind::Short;
+        }
+        let flags = (d[0] >> 2) & 0xf;
+        if flags & 8 != 0 {
+            return Kind::Connless;
+        }
+        if d.len() < 7 {
+            return Kind::Short;
+        }
+        if flags & 1 != 0 {
+            return match d.get(7) {
+                Some(&c) => Kind::Control(c),
+                None => Kind::Short,
+            };
+        }
+        Kind::Chunks
+    }
+}
+
+/// Control byte of the message with which an acceptor answers the connect.
+pub fn accept_ctrl(_v7: bool) -> u8 {
+    // 0.6: CONNECTACCEPT = 2; 0.7: ACCEPT = 2.
+    2
+}
+
+// ------------------------------------------------------------------ simulation
+
+#[derive(Clone, Debug)]
+pub struct Datagram {
+    pub id: u64,
+    pub bytes: Vec<u8>,
+    /// vital submissions of (sender, receiver) when it was put on the wire
+    pub vital_at_emit: (u64, u64),
+    pub copies_made: u32,
+}
+
+#[derive(Clone, Debug)]
+pub enum Move {
+    Connect,
+    Send { side: usize, len: usize, vital: bool, fill: u8 },
+    Connless { side: usize, len: usize },
+    Flush(usize),
+    Tick(usize),
+    Advance(u64),
+    AdvanceToDeadline,
+    Deliver { to: usize, idx: usize },
+    Drop { to: usize, idx: usize },
+    Dup { to: usize, idx: usize },
+    Disconnect { side: usize, reason_len: usize },
+}
+
+impl Move {
+    pub fn to_json(&self) -> Value {
+        match self {
+            Move::Connect => json!("connect"),
+            Move::Send { side, len, vital, fill } => json!({"send": side, "len": len, "vital": vital, "fill": fill}),
+            Move::Connless { side, len } => json!({"connless": side, "len": len}),
+            Move::Flush(s) => json!({"flush": s}),
+            Move::Tick(s) => json!({"tick": s}),
+            Move::Advance(us) => json!({"advance_us": us}),
+            Move::AdvanceToDeadline => json!("advance_to_deadline"),
+            Move::Deliver { to, idx } => json!({"deliver_to": to, "idx": idx}),
+            Move::Drop { to, idx } => json!({"drop_to": to, "idx": idx}),
+            Move::Dup { to, idx } => json!({"dup_to": to, "idx": idx}),
+            Move::Disconnect { side, reason_len } => json!({"disconnect": side, "reason_len": reason_len}),
+        }
+    }
+    pub fn from_json(v: &Value) -> Move {
+        if v == "connect" {
+            return Move::Connect;
+        }
+        if v == "advance_to_deadline" {
+            return Move::AdvanceToDeadline;
+        }
+        let u = |k: &str| v[k].as_u64().unwrap() as usize;
+        if !v["send"].is_null() {
+            return Move::Send { side: u("send"), len: u("len"), vital: v["vital"].as_bool().unwrap(), fill: u("fill") as u8 };
+        }
+        if !v["connless"].is_null() {
+            return Move::Connless { side: u("connless"), len: u("len") };
+        }
+        if !v["flush"].is_null() {
+            return Move::Flush(u("flush"));
+        }
+        if !v["tick"].is_null() {
+            return Move::Tick(u("tick"));
+        }
+        if !v["advance_us"].is_null() {
+            return Move::Advance(v["advance_us"].as_u64().unwrap());
+        }
+        if !v["deliver_to"].is_null() {
+            return Move::Deliver { to: u("deliver_to"), idx: u("idx") };
+        }
+        if !v["drop_to"].is_null() {
+            return Move::Drop { to: u("drop_to"), idx: u("idx") };
+        }
+        if !v["dup_to"].is_null() {
+            return Move::Dup { to: u("dup_to"), idx: u("idx") };
+        }
+        if !v["disconnect"].is_null() {
+            return Move::Disconnect { side: u("disconnect"), reason_len: u("reason_len") };
+        }
+        panic!("bad move {}", v)
+    }
+}
+
+#[derive(Clone, Debug)]
+pub struct Finding {
+    pub clause: &'static str,
+    pub site: String,
+    pub class: String,
+    pub detail: Value,
+}
+
+#[derive(Default, Clone, Debug)]
+pub struct Stats {
+    pub moves: u64,
+    pub emitted: u64,
+    pub delivered: u64,
+    pub dropped: u64,
+    pub duplicated: u64,
+    pub dup_deliveries: u64,
+    pub reordered_deliveries: u64,
+    pub stale_dropped: u64,
+    pub vital_submitted: [u64; 2],
+    pub vital_delivered: [u64; 2],
+    pub nonvital_submitted: u64,
+    pub nonvital_delivered: u64,
+    pub connless_delivered: u64,
+    pub resend_chunks_on_wire: u64,
+    pub request_resend_on_wire: u64,
+    pub compressed_on_wire: u64,
+    pub uncompressed_chunk_packets: u64,
+    pub too_long_refused: u64,
+    pub seq_wraps: u64,
+    pub max_unacked: u64,
+    pub max_queued_chunks: u64,
+    pub max_datagrams_per_call: u64,
+    pub ready: u64,
+    pub warnings_on_feed: u64,
+    pub token_mismatch: u64,
+}
+
+pub struct Side<C: Conn> {
+    pub conn: C,
+    pub cb: Cb,
+    pub submitted_vital: Vec<Vec<u8>>,
+    pub submitted_nonvital: HashSet<Vec<u8>>,
+    pub submitted_connless: HashSet<Vec<u8>>,
+    /// How many of the *peer's* vital chunks were handed to this application.
+    pub delivered_vital: usize,
+    pub ready_seen: u32,
+    pub disconnected_event: bool,
+    /// Set when a panic escaped from this endpoint: it must not be used again.
+    pub poisoned: bool,
+    pub emitted_accept: bool,
+    pub nonvital_counter: u32,
+}
+
+pub struct Sim<C: Conn> {
+    pub variant: Variant,
+    pub sides: [Side<C>; 2],
+    /// wire[d]: datagrams travelling towards side d.
+    pub wire: [Vec<Datagram>; 2],
+    pub next_id: u64,
+    pub last_delivered_id: [u64; 2],
+    pub delivered_ids: HashSet<u64>,
+    pub log: Vec<Move>,
+    pub findings: Vec<Finding>,
+    pub stats: Stats,
+    pub states_seen: HashSet<u64>,
+    pub check_wire: bool,
+    pub allow_disconnect_unconnected: bool,
+    pub ended: bool,
+    /// Panic that ended the history, if any.
+    pub panicked: Option<(String, Panicked)>,
+}
+
+/// Sizes the generators concentrate on.
+pub const EDGE_SIZES: [usize; 24] = [
+    0, 1, 2, 3, 15, 16, 17, 63, 64, 65, 255, 256, 1021, 1022, 1023, 1024, 1025, 1383, 1386, 1387, 1388, 1389, 1390, 1391,
+];
+
+pub fn payload(side: usize, vital: bool, index: u32, len: usize, fill: u8) -> Vec<u8> {
+    // Self-describing where the length permits: direction, kind, running index.
+    let mut v = Vec::with_capacity(len);
+    let head = [
+        if side == 0 { b'A' } else { b'B' },
+        if vital { b'V' } else { b'N' },
+        index as u8,
+        (index >> 8) as u8,
+        (index >> 16) as u8,
+        (index >> 24) as u8,
+    ];
+    let mut r = Rng::new(((index as u64) << 8) | ((side as u64) << 1) | vital as u64);
+    for i in 0..len {
+        let b = if i < head.len() {
+            head[i]
+        } else {
+            match fill % 4 {
+                0 => 0,                                   // highly compressible
+                1 => b"the quick brown fox "[i % 20],     // text
+                2 => r.u8(),                              // noise
+                _ => if i % 7 == 0 { r.u8() } else { 0 }, // sparse
+            }
+        };
+        v.push(b);
+    }
+    v
+}
+
+impl<C: Conn> Sim<C> {
+    pub fn new(variant: Variant, seed: u64) -> Sim<C> {
+        assert!(C::V7 == (variant == Variant::V7));
+        let side = |i: u64| Side {
+            conn: C::new(),
+            cb: Cb::new(crate::mix(seed, i)),
+            submitted_vital: Vec::new(),
+            submitted_nonvital: HashSet::new(),
+            submitted_connless: HashSet::new(),
+            delivered_vital: 0,
+            ready_seen: 0,
+            disconnected_event: false,
+            poisoned: false,
+            emitted_accept: false,
+            nonvital_counter: 0,
+        };
+        Sim {
+            variant,
+            sides: [side(0), side(1)],
+            wire: [Vec::new(), Vec::new()],
+            next_id: 1,
+            last_delivered_id: [0, 0],
+            delivered_ids: HashSet::new(),
+            log: Vec::new(),
+            findings: Vec::new(),
+            stats: Stats::default(),
+            states_seen: HashSet::new(),
+            check_wire: true,
+            allow_disconnect_unconnected: false,
+            ended: false,
+            panicked: None,
+        }
+    }
+
+    pub fn now(&self) -> u64 {
+        self.sides[0].cb.now_us
+    }
+
+    fn set_now(&mut self, t: u64) {
+        self.sides[0].cb.now_us = t;
+        self.sides[1].cb.now_us = t;
+    }
+
+    pub fn finding(&mut self, clause: &'static str, site: &str, class: &str, detail: Value) {
+        if self.findings.len() < 32 {
+            self.findings.push(Finding {
+                clause,
+                site: site.to_string(),
+                class: class.to_string(),
+                detail,
+            });
+        }
+    }
+
+    pub fn online(&self, side: usize) -> bool {
+        self.sides[side].conn.state_name() == "Online"
+    }
+
+    /// Is `m` a valid API call in the current state (the API's documented
+    /// preconditions)? Adversary moves need an existing datagram.
+    pub fn valid(&self, m: &Move) -> bool {
+        if self.ended {
+            return false;
+        }
+        let st = |s: usize| self.sides[s].conn.state_name();
+        match *m {
+            Move::Connect => st(0) == "Unconnected",
+            Move::Send { side, vital, .. } => {
+                // quantifier: fewer than 512 unacknowledged at once
+                self.online(side) && (!vital || self.sides[side].conn.unacked() < 500)
+            }
+            Move::Connless { side, .. } => self.online(side),
+            Move::Flush(side) => self.online(side),
+            Move::Tick(_) | Move::Advance(_) | Move::AdvanceToDeadline => true,
+            Move::Deliver { to, idx } | Move::Drop { to, idx } | Move::Dup { to, idx } => idx < self.wire[to].len(),
+            Move::Disconnect { side, .. } => st(side) != "Disconnected" && (self.allow_disconnect_unconnected || st(side) != "Unconnected"),
+        }
+    }
+
+    fn has_token_mode(&self, side: usize, state_before: &str, kind: Kind) -> bool {
+        // A connection that was never connected has no token to send (the
+        // Close of a rejected connection).
+        if state_before == "Unconnected" && kind == Kind::Control(4) {
+            return false;
+        }
+        match self.variant {
+            Variant::V6Token => true,
+            // Without token support on the accepting side, the only datagrams
+            // that carry a token are the connector's Connect (offering the
+            // extension) and a Close sent while still connecting.
+            Variant::V6NoToken => {
+                side == 0
+                    && matches!(state_before, "Unconnected" | "Connecting")
+                    && matches!(kind, Kind::Control(1) | Kind::Control(4))
+            }
+            Variant::V7 => true,
+        }
+    }
+
+    /// Collects what `side` put into its outbox during the last call: wire
+    /// oracle (C04), classification, then onto the wire.
+    fn collect(&mut self, side: usize, state_before: &'static str, site: &str) {
+        let sent = std::mem::take(&mut self.sides[side].cb.sent);
+        self.stats.max_datagrams_per_call = self.stats.max_datagrams_per_call.max(sent.len() as u64);
+        for bytes in sent {
+            self.stats.emitted += 1;
+            let kind = classify(C::V7, &bytes);
+            if side == 1 && kind == Kind::Control(accept_ctrl(C::V7)) {
+                self.sides[1].emitted_accept = true;
+            }
+            if self.check_wire {
+                self.wire_oracle(side, state_before, site, &bytes);
+            }
+            let mut bytes = bytes;
+            // 0.6 without token: the acceptor sees the token-less connect.
+            if self.variant == Variant::V6NoToken && side == 0 && kind == Kind::Control(1) && bytes.len() == 12 {
+                bytes.truncate(4);
+            }
+            let d = Datagram {
+                id: self.next_id,
+                bytes,
+                vital_at_emit: (
+                    self.sides[side].submitted_vital.len() as u64,
+                    self.sides[1 - side].submitted_vital.len() as u64,
+                ),
+                copies_made: 0,
+            };
+            self.next_id += 1;
+            self.wire[1 - side].push(d);
+        }
+    }
+
+    /// C04: every datagram handed to the send callback is ≤ 1400 bytes, parses
+    /// without error or warning, carries as many chunks as its header says and
+    /// every chunk is bit-identical to what was queued.
+    fn wire_oracle(&mut self, side: usize, state_before: &'static str, site: &str, bytes: &[u8]) {
+        let vname = self.variant.name();
+        if bytes.len() > 1400 {
+            self.finding("wire-too-long", site, vname, json!({"len": bytes.len()}));
+            return;
+        }
+        let has_token = self.has_token_mode(side, state_before, classify(C::V7, bytes));
+        let parsed = catch(|| C::parse(bytes, has_token));
+        let (parsed, warnings) = match parsed {
+            Ok(x) => x,
+            Err(p) => {
+                self.finding("wire-unparseable", site, &format!("{}|reader-panic:{}", vname, p.msg_sig), json!({"bytes": hex_short(bytes)}));
+                return;
+            }
+        };
+        if !warnings.is_empty() {
+            let mut w = warnings.clone();
+            w.sort();
+            w.dedup();
+            self.finding("wire-warning", site, &format!("{}|{}", vname, w.join("+")), json!({"bytes": hex_short(bytes), "len": bytes.len(), "warnings": warnings}));
+            return;
+        }
+        match parsed {
+            Parsed::Error(e) => {
+                self.finding("wire-unparseable", site, &format!("{}|{}", vname, e), json!({"bytes": hex_short(bytes), "len": bytes.len()}));
+            }
+            Parsed::Connless(d) => {
+                if !self.sides[side].submitted_connless.contains(&d) {
+                    self.finding("wire-chunk-differs", site, &format!("{}|connless", vname), json!({"payload": hex_short(&d)}));
+                }
+            }
+            Parsed::Control { .. } => {}
+            Parsed::Chunks { num_chunks, chunks, request_resend, compressed, .. } => {
+                if compressed {
+                    self.stats.compressed_on_wire += 1;
+                } else {
+                    self.stats.uncompressed_chunk_packets += 1;
+                }
+                if request_resend {
+                    self.stats.request_resend_on_wire += 1;
+                }
+                if chunks.len() != num_chunks as usize {
+                    self.finding("wire-chunk-count", site, vname, json!({"header": num_chunks, "carried": chunks.len(), "bytes": hex_short(bytes)}));
+                    return;
+                }
+                let submitted = self.sides[side].submitted_vital.len();
+                for ch in &chunks {
+                    match ch.vital {
+                        Some((seq, resend)) => {
+                            if resend {
+                                self.stats.resend_chunks_on_wire += 1;
+                            }
+                            // the unique submission index j in (submitted-1024, submitted) with (j+1) % 1024 == seq
+                            let mut j = None;
+                            let lo = submitted.saturating_sub(1023);
+                            for cand in lo..submitted {
+                                if (cand + 1) % 1024 == seq as usize {
+                                    j = Some(cand);
+                                }
+                            }
+                            match j {
+                                Some(j) if self.sides[side].submitted_vital[j] == ch.data => {}
+                                _ => {
+                                    self.finding("wire-chunk-differs", site, &format!("{}|vital", vname), json!({"seq": seq, "resend": resend, "chunk": hex_short(&ch.data), "index": j}));
+                                    return;
+                                }
+                            }
+                        }
+                        None => {
+                            if !self.sides[side].submitted_nonvital.contains(&ch.data) {
+                                self.finding("wire-chunk-differs", site, &format!("{}|nonvital", vname), json!({"chunk": hex_short(&ch.data)}));
+                                return;
+                            }
+                        }
+                    }
+                }
+            }
+        }
+    }
+
+    /// C01: delivery oracle at the return of a feed.
+    fn delivery_oracle(&mut self, to: usize, events: &[Event]) {
+        let vname = self.variant.name();
+        let from = 1 - to;
+        for ev in events {
+            match ev {
+                Event::Chunk(data, true) => {
+                    let cursor = self.sides[to].delivered_vital;
+                    let expected = self.sides[from].submitted_vital.get(cursor);
+                    if expected.map(|e| e == data).unwrap_or(false) {
+                        self.sides[to].delivered_vital += 1;
+                        self.stats.vital_delivered[to] += 1;
+                    } else {
+                        // classify: duplicate / skip / reorder / altered / invented
+                        let pos = self.sides[from].submitted_vital.iter().position(|s| s == data);
+                        let what = match pos {
+                            Some(p) if p < cursor => "duplicate-or-reordered-old",
+                            Some(_) => "skipped-ahead",
+                            None => "altered-or-invented",
+                        };
+                        self.finding("prefix", "Connection::feed", &format!("{}|{}", vname, what), json!({"to": to, "cursor": cursor, "found_at": pos, "delivered": hex_short(data), "expected": expected.map(|e| hex_short(e))}));
+                        // resynchronise so that one defect is one finding
+                        if let Some(p) = pos {
+                            if p >= cursor {
+                                self.sides[to].delivered_vital = p + 1;
+                            }
+                        }
+                    }
+                }
+                Event::Chunk(data, false) => {
+                    self.stats.nonvital_delivered += 1;
+                    if !self.sides[from].submitted_nonvital.contains(data) {
+                        self.finding("nonvital-membership", "Connection::feed", vname, json!({"to": to, "delivered": hex_short(data)}));
+                    }
+                }
+                Event::Connless(data) => {
+                    self.stats.connless_delivered += 1;
+                    if !self.sides[from].submitted_connless.contains(data) {
+                        self.finding("nonvital-membership", "Connection::feed", &format!("{}|connless", vname), json!({"to": to, "delivered": hex_short(data)}));
+                    }
+                }
+                Event::Ready => {
+                    self.stats.ready += 1;
+                    self.sides[to].ready_seen += 1;
+                    if to != 0 {
+                        self.finding("ready", "Connection::feed", &format!("{}|acceptor-told-ready", vname), json!({}));
+                    } else {
+                        if self.sides[0].ready_seen > 1 {
+                            self.finding("ready", "Connection::feed", &format!("{}|ready-twice", vname), json!({"count": self.sides[0].ready_seen}));
+                        }
+                        if !self.sides[1].emitted_accept {
+                            self.finding("ready", "Connection::feed", &format!("{}|ready-before-accept", vname), json!({}));
+                        }
+                    }
+                }
+                Event::Disconnect(_) => {
+                    self.sides[to].disconnected_event = true;
+                }
+            }
+        }
+    }
+
+    fn drop_stale(&mut self) {
+        // quantifier: no datagram is delayed across 1024 sequence numbers. We
+        // drop at 500 in either direction.
+        for to in 0..2 {
+            let from = 1 - to;
+            let s_now = self.sides[from].submitted_vital.len() as u64;
+            let r_now = self.sides[to].submitted_vital.len() as u64;
+            let before = self.wire[to].len();
+            self.wire[to].retain(|d| s_now - d.vital_at_emit.0 < 500 && r_now - d.vital_at_emit.1 < 500);
+            self.stats.stale_dropped += (before - self.wire[to].len()) as u64;
+        }
+    }
+
+    fn record_state(&mut self) {
+        let mut h = 0u64;
+        for s in &self.sides {
+            let seq = s.conn.seq().unwrap_or((9999, 9999, false));
+            let q = s.conn.queued();
+            let key = format!("{}|{}|{}|{}|{}|{}", s.conn.state_name(), seq.0, seq.1, seq.2, s.conn.unacked(), q.0);
+            h = crate::mix(h, fnv1a(key.as_bytes()));
+            self.stats.max_unacked = self.stats.max_unacked.max(s.conn.unacked() as u64);
+            self.stats.max_queued_chunks = self.stats.max_queued_chunks.max(q.0 as u64);
+        }
+        if self.states_seen.len() < 200_000 {
+            self.states_seen.insert(h);
+        }
+    }
+
+    /// Applies one move. Returns false when the move was not valid (skipped).
+    pub fn apply(&mut self, m: Move) -> bool {
+        if !self.valid(&m) {
+            return false;
+        }
+        self.log.push(m.clone());
+        self.stats.moves += 1;
+        for s in &mut self.sides {
+            s.cb.calls = 0;
+        }
+        let vname = self.variant.name();
+        match m {
+            Move::Connect => {
+                let st = self.sides[0].conn.state_name();
+                self.call(0, "Connection::connect", st, |c, cb| c.connect(cb));
+            }
+            Move::Send { side, len, vital, fill } => {
+                let st = self.sides[side].conn.state_name();
+                let index = if vital {
+                    self.sides[side].submitted_vital.len() as u32
+                } else {
+                    self.sides[side].nonvital_counter
+                };
+                let data = payload(side, vital, index, len, fill);
+                let before = if len >= 1000 { self.sides[side].conn.fingerprint() } else { String::new() };
+                // The chunk may already go out (flush inside send): register first.
+                if vital {
+                    self.sides[side].submitted_vital.push(data.clone());
+                } else {
+                    self.sides[side].submitted_nonvital.insert(data.clone());
+                }
+                let r = self.call(side, "Connection::send", st, |c, cb| c.send(cb, &data, vital));
+                match r {
+                    Some(Ok(())) => {
+                        if vital {
+                            self.stats.vital_submitted[side] += 1;
+                            if self.sides[side].submitted_vital.len() % 1024 == 0 {
+                                self.stats.seq_wraps += 1;
+                            }
+                        } else {
+                            self.sides[side].nonvital_counter += 1;
+                            self.stats.nonvital_submitted += 1;
+                        }
+                        if len > C::max_payload() {
+                            self.finding("too-long-accepted", "Connection::send", vname, json!({"len": len}));
+                        }
+                    }
+                    Some(Err(())) => {
+                        // refused: must leave the connection unchanged and usable
+                        self.stats.too_long_refused += 1;
+                        if vital {
+                            self.sides[side].submitted_vital.pop();
+                        } else {
+                            // keep membership exact: the refused payload was never sent
+                            self.sides[side].submitted_nonvital.remove(&data);
+                        }
+                        let after = if len >= 1000 { self.sides[side].conn.fingerprint() } else { String::new() };
+                        if after != before {
+                            self.finding("refusal-changed-state", "Connection::send", vname, json!({"len": len, "vital": vital}));
+                        }
+                        // Every variant can carry what fits the 10-bit chunk size of 0.6.
+                        if len < 1024 {
+                            self.finding("refused-within-limit", "Connection::send", &format!("{}|len-class={}", vname, len_class(len)), json!({"len": len, "vital": vital}));
+                        }
+                    }
+                    None => {
+                        if vital {
+                            self.sides[side].submitted_vital.pop();
+                        }
+                    }
+                }
+            }
+            Move::Connless { side, len } => {
+                let st = self.sides[side].conn.state_name();
+                let idx = self.sides[side].submitted_connless.len() as u32;
+                let mut data = payload(side, false, idx, len, 2);
+                if !data.is_empty() {
+                    data[0] = b'C';
+                }
+                self.sides[side].submitted_connless.insert(data.clone());
+                let r = self.call(side, "Connection::send_connless", st, |c, cb| c.send_connless(cb, &data));
+                if let Some(Err(())) = r {
+                    self.stats.too_long_refused += 1;
+                    if len <= C::max_payload() {
+                        self.finding("refused-within-limit", "Connection::send_connless", vname, json!({"len": len}));
+                    }
+                }
+            }
+            Move::Flush(side) => {
+                let st = self.sides[side].conn.state_name();
+                self.call(side, "Connection::flush", st, |c, cb| c.flush(cb));
+            }
+            Move::Tick(side) => {
+                let st = self.sides[side].conn.state_name();
+                self.call(side, "Connection::tick", st, |c, cb| c.tick(cb));
+            }
+            Move::Advance(us) => {
+                let t = self.now() + us;
+                self.set_now(t);
+            }
+            Move::AdvanceToDeadline => {
+                let d = [self.sides[0].conn.needs_tick(), self.sides[1].conn.needs_tick()];
+                let next = d.iter().flatten().min().copied();
+                if let Some(t) = next {
+                    if t > self.now() && t < u64::MAX / 2 {
+                        self.set_now(t);
+                    }
+                }
+            }
+            Move::Deliver { to, idx } => {
+                let d = self.wire[to].remove(idx);
+                self.stats.delivered += 1;
+                if !self.delivered_ids.insert(d.id) {
+                    self.stats.dup_deliveries += 1;
+                }
+                if d.id < self.last_delivered_id[to] {
+                    self.stats.reordered_deliveries += 1;
+                }
+                self.last_delivered_id[to] = self.last_delivered_id[to].max(d.id);
+                let st = self.sides[to].conn.state_name();
+                let r = self.call(to, "Connection::feed", st, |c, cb| c.feed(cb, &d.bytes));
+                if let Some((events, warnings)) = r {
+                    self.stats.warnings_on_feed += warnings.len() as u64;
+                    if warnings.iter().any(|w| w.contains("TokenMismatch")) {
+                        self.stats.token_mismatch += 1;
+                    }
+                    self.delivery_oracle(to, &events);
+                }
+            }
+            Move::Drop { to, idx } => {
+                self.wire[to].remove(idx);
+                self.stats.dropped += 1;
+            }
+            Move::Dup { to, idx } => {
+                if self.wire[to][idx].copies_made < 3 && self.wire[to].len() < 256 {
+                    self.wire[to][idx].copies_made += 1;
+                    let d = self.wire[to][idx].clone();
+                    self.wire[to].push(d);
+                    self.stats.duplicated += 1;
+                }
+            }
+            Move::Disconnect { side, reason_len } => {
+                let st = self.sides[side].conn.state_name();
+                let reason: Vec<u8> = (0..reason_len).map(|i| b'a' + (i % 26) as u8).collect();
+                self.call(side, "Connection::disconnect", st, |c, cb| c.disconnect(cb, &reason));
+            }
+        }
+        self.drop_stale();
+        if self.panicked.is_none() {
+            self.record_state();
+        }
+        true
+    }
+
+    /// Runs one API call of `side` under catch; collects the outbox.
+    fn call<R, F: FnOnce(&mut C, &mut Cb) -> R>(&mut self, side: usize, site: &'static str, state_before: &'static str, f: F) -> Option<R> {
+        if self.sides[side].poisoned {
+            return None;
+        }
+        let s = &mut self.sides[side];
+        let r = catch(|| f(&mut s.conn, &mut s.cb));
+        match r {
+            Ok(v) => {
+                self.collect(side, state_before, site);
+                Some(v)
+            }
+            Err(p) => {
+                self.sides[side].poisoned = true;
+                self.ended = true;
+                let vname = self.variant.name();
+                if p.msg.contains(BUDGET_PANIC) {
+                    self.finding("no-return", site, &format!("{}|callback-budget|state={}", vname, state_before), json!({"budget": self.sides[side].cb.budget, "state": state_before}));
+                } else {
+                    self.finding("panic", &format!("{}|msg={}|in={}", site, p.msg_sig, p.file), &format!("{}|state={}", vname, state_before), json!({"message": p.msg, "location": p.location}));
+                }
+                self.panicked = Some((site.to_string(), p));
+                None
+            }
+        }
+    }
+
+    pub fn log_json(&self) -> Value {
+        json!({"variant": self.variant.name(), "moves": self.log.iter().map(|m| m.to_json()).collect::<Vec<_>>()})
+    }
+}
+
+pub fn len_class(len: usize) -> &'static str {
+    match len {
+        0 => "0",
+        1..=63 => "1..63",
+        64..=1023 => "64..1023",
+        1024..=1387 => "1024..1387",
+        1388..=1390 => "1388..1390",
+        _ => ">1390",
+    }
+}
+
+// ------------------------------------------------------------------ adversary
+
+/// A per-history "personality" so that runs differ in kind.
+#[derive(Clone, Debug)]
+pub struct Personality {
+    pub loss: u32,     // percent
+    pub dup: u32,      // percent
+    pub reorder: usize, // window
+    pub w_send: u32,
+    pub w_flush: u32,
+    pub w_tick: u32,
+    pub w_advance: u32,
+    pub w_deliver: u32,
+    pub w_connless: u32,
+    pub vital_pct: u32,
+    pub big_pct: u32,
+    pub both_send: bool,
+    pub burst: usize,
+}
+
+impl Personality {
+    pub fn random(rng: &mut Rng) -> Personality {
+        let kind = rng.below(6);
+        Personality {
+            loss: match kind {
+                0 => 0,
+                1 => rng.range(1, 10) as u32,
+                _ => rng.range(0, 60) as u32,
+            },
+            dup: if kind == 0 { 0 } else { rng.range(0, 30) as u32 },
+            reorder: match rng.below(4) {
+                0 => 0,
+                1 => 2,
+                2 => 8,
+                _ => 64,
+            },
+            w_send: rng.range(5, 40) as u32,
+            w_flush: rng.range(1, 15) as u32,
+            w_tick: rng.range(2, 20) as u32,
+            w_advance: rng.range(2, 20) as u32,
+            w_deliver: rng.range(10, 60) as u32,
+            w_connless: rng.range(0, 3) as u32,
+            vital_pct: *rng.pick(&[100, 90, 70, 50, 20]),
+            big_pct: *rng.pick(&[0, 5, 20, 60]),
+            both_send: rng.chance(3, 4),
+            burst: *rng.pick(&[1, 1, 1, 3, 10, 40]),
+        }
+    }
+    pub fn to_json(&self) -> Value {
+        json!({"loss": self.loss, "dup": self.dup, "reorder": self.reorder, "vital_pct": self.vital_pct, "big_pct": self.big_pct, "burst": self.burst, "both_send": self.both_send})
+    }
+}
+
+pub fn pick_len(rng: &mut Rng, big_pct: u32, max_accepted: usize) -> usize {
+    if rng.below(100) < big_pct as u64 {
+        match rng.below(3) {
+            0 => *rng.pick(&EDGE_SIZES).min(&max_accepted),
+            1 => rng.range(max_accepted as i64 - 8, max_accepted as i64) as usize,
+            _ => rng.range(200, max_accepted as i64) as usize,
+        }
+    } else {
+        match rng.below(4) {
+            0 => *rng.pick(&[0usize, 1, 2, 3, 15, 16, 17, 63, 64, 65]),
+            1 => rng.range(6, 40) as usize,
+            _ => rng.range(0, 200) as usize,
+        }
+    }
+}
+
+/// Chooses the next chaos move.
+pub fn chaos_move<C: Conn>(sim: &Sim<C>, rng: &mut Rng, p: &Personality, max_len: usize) -> Move {
+    let total_wire = sim.wire[0].len() + sim.wire[1].len();
+    let weights = [
+        p.w_send,
+        p.w_flush,
+        p.w_tick,
+        p.w_advance,
+        if total_wire > 0 { p.w_deliver + (total_wire as u32).min(40) } else { 0 },
+        p.w_connless,
+    ];
+    match rng.weighted(&weights) {
+        0 => {
+            let side = if p.both_send { rng.usize_below(2) } else { 0 };
+            Move::Send {
+                side,
+                len: pick_len(rng, p.big_pct, max_len),
+                vital: rng.below(100) < p.vital_pct as u64,
+                fill: rng.u8(),
+            }
+        }
+        1 => Move::Flush(rng.usize_below(2)),
+        2 => Move::Tick(rng.usize_below(2)),
+        3 => match rng.below(8) {
+            0 => Move::Advance(0),
+            1 => Move::Advance(1_000),
+            2 => Move::Advance(100_000),
+            3 => Move::Advance(500_000),
+            4 => Move::Advance(1_000_000),
+            5 => Move::Advance(rng.range(0, 1_200_000) as u64),
+            _ => Move::AdvanceToDeadline,
+        },
+        4 => {
+            let to = if sim.wire[0].is_empty() {
+                1
+            } else if sim.wire[1].is_empty() {
+                0
+            } else {
+                rng.usize_below(2)
+            };
+            let n = sim.wire[to].len();
+            let idx = if p.reorder == 0 { 0 } else { rng.usize_below(n.min(p.reorder)) };
+            let x = rng.below(100) as u32;
+            if x < p.loss {
+                Move::Drop { to, idx }
+            } else if x < p.loss + p.dup {
+                Move::Dup { to, idx }
+            } else {
+                Move::Deliver { to, idx }
+            }
+        }
+        _ => Move::Connless {
+            side: rng.usize_below(2),
+            len: pick_len(rng, p.big_pct, max_len),
+        },
+    }
+}
+
+// ------------------------------------------------------------------ history runner
+
+/// Parameters of one chaos history.
+#[derive(Clone, Debug)]
+pub struct HistoryParams {
+    pub variant: Variant,
+    pub moves: usize,
+    pub personality: Personality,
+    /// Largest payload length the generator asks `send` to carry.
+    pub max_len: usize,
+    /// Probability (percent) that the first secure_random draws are reserved values.
+    pub reserved_random_pct: u32,
+    pub disconnect_pct: u32,
+}
+
+impl HistoryParams {
+    pub fn random(rng: &mut Rng, variant: Variant, moves: usize) -> HistoryParams {
+        HistoryParams {
+            variant,
+            moves,
+            personality: Personality::random(rng),
+            max_len: 1023,
+            reserved_random_pct: 30,
+            disconnect_pct: 0,
+        }
+    }
+}
+
+pub fn script_reserved(rng: &mut Rng, cb: &mut Cb) {
+    let n = rng.range(1, 3);
+    for _ in 0..n {
+        cb.script.push(if rng.bool() { [0xff; 4] } else { [0; 4] });
+    }
+}
+
+/// Runs a chaos history on a fresh pair of endpoints. `hook` is called after
+/// every applied move (monitor-specific oracles) and may stop the history by
+/// returning false.
+pub fn run_history<C: Conn, H: FnMut(&mut Sim<C>, &Move) -> bool>(rng: &mut Rng, hp: &HistoryParams, mut hook: H) -> Sim<C> {
+    let mut sim: Sim<C> = Sim::new(hp.variant, rng.u64());
+    if rng.below(100) < hp.reserved_random_pct as u64 {
+        script_reserved(rng, &mut sim.sides[0].cb);
+        script_reserved(rng, &mut sim.sides[1].cb);
+    }
+    // A few moves may precede the connect (ticks and clock advances are valid in every state).
+    let pre = if rng.chance(1, 4) { rng.range(1, 4) } else { 0 };
+    for _ in 0..pre {
+        let m = if rng.bool() { Move::Tick(rng.usize_below(2)) } else { Move::Advance(rng.range(0, 2_000_000) as u64) };
+        sim.apply(m.clone());
+        if !hook(&mut sim, &m) {
+            return sim;
+        }
+    }
+    sim.apply(Move::Connect);
+    if !hook(&mut sim, &Move::Connect) {
+        return sim;
+    }
+    let mut burst_left = 0usize;
+    let mut burst_move: Option<Move> = None;
+    for _ in 0..hp.moves {
+        if sim.ended {
+            break;
+        }
+        let m = if burst_left > 0 {
+            burst_left -= 1;
+            match burst_move.clone().unwrap() {
+                Move::Send { side, vital, .. } => Move::Send { side, len: pick_len(rng, hp.personality.big_pct, hp.max_len), vital, fill: rng.u8() },
+                m => m,
+            }
+        } else {
+            let m = if hp.disconnect_pct > 0 && rng.below(10_000) < hp.disconnect_pct as u64 {
+                Move::Disconnect { side: rng.usize_below(2), reason_len: *rng.pick(&[0usize, 1, 5, 126, 127]) }
+            } else {
+                chaos_move(&sim, rng, &hp.personality, hp.max_len)
+            };
+            if let Move::Send { .. } = m {
+                if hp.personality.burst > 1 && rng.chance(1, 4) {
+                    burst_left = rng.usize_below(hp.personality.burst);
+                    burst_move = Some(m.clone());
+                }
+            }
+            m
+        };
+        if sim.apply(m.clone()) && !hook(&mut sim, &m) {
+            break;
+        }
+    }
+    sim
+}
+
+/// Folds the statistics of a finished history into the shard context.
+pub fn fold_stats<C: Conn>(ctx: &mut crate::Ctx, sim: &Sim<C>) {
+    let s = &sim.stats;
+    let v = sim.variant.name();
+    ctx.count("moves", s.moves);
+    ctx.count(&format!("histories[{}]", v), 1);
+    ctx.count("datagrams_emitted", s.emitted);
+    ctx.count("datagrams_delivered", s.delivered);
+    ctx.count("datagrams_dropped", s.dropped);
+    ctx.count("datagrams_duplicated", s.duplicated);
+    ctx.count("duplicate_deliveries", s.dup_deliveries);
+    ctx.count("reordered_deliveries", s.reordered_deliveries);
+    ctx.count("stale_dropped", s.stale_dropped);
+    ctx.count("vital_submitted", s.vital_submitted[0] + s.vital_submitted[1]);
+    ctx.count("vital_delivered", s.vital_delivered[0] + s.vital_delivered[1]);
+    ctx.count("nonvital_submitted", s.nonvital_submitted);
+    ctx.count("nonvital_delivered", s.nonvital_delivered);
+    ctx.count("connless_delivered", s.connless_delivered);
+    ctx.count("resend_chunks_on_wire", s.resend_chunks_on_wire);
+    ctx.count("request_resend_on_wire", s.request_resend_on_wire);
+    ctx.count("compressed_on_wire", s.compressed_on_wire);
+    ctx.count("uncompressed_chunk_packets", s.uncompressed_chunk_packets);
+    ctx.count("too_long_refused", s.too_long_refused);
+    ctx.count("seq_wraps", s.seq_wraps);
+    ctx.count("ready_events", s.ready);
+    ctx.count("token_mismatch_warnings", s.token_mismatch);
+    ctx.max("max_unacked", s.max_unacked);
+    ctx.max("max_queued_chunks", s.max_queued_chunks);
+    ctx.max("max_datagrams_per_call", s.max_datagrams_per_call);
+    ctx.count("distinct_endpoint_state_pairs_sum", sim.states_seen.len() as u64);
+}
+
+/// Forwards the findings whose clause is in `own` as violations; everything
+/// else is counted as `aborted_by_other_clause`.
+pub fn forward_findings<C: Conn>(ctx: &mut crate::Ctx, sim: &Sim<C>, own: &[&str], case_data: &Value) {
+    for f in &sim.findings {
+        if own.contains(&f.clause) {
+            let mut data = case_data.clone();
+            if sim.log.len() <= 400 {
+                data["log"] = sim.log_json();
+            } else {
+                data["log_tail"] = json!(sim.log[sim.log.len() - 200..].iter().map(|m| m.to_json()).collect::<Vec<_>>());
+                data["log_len"] = json!(sim.log.len());
+            }
+            ctx.violation(f.clause, &f.site, &f.class, f.detail.clone(), data);
+        } else {
+            ctx.count(&format!("other_clause[{}]", f.clause), 1);
+        }
+    }
+}
+
+impl<C: Conn> Sim<C> {
+    /// Delivers everything in flight in FIFO order, alternating directions,
+    /// until the wire is empty (bounded).
+    pub fn deliver_all(&mut self, max_rounds: usize) {
+        for _ in 0..max_rounds {
+            if self.ended || (self.wire[0].is_empty() && self.wire[1].is_empty()) {
+                return;
+            }
+            for to in [1usize, 0] {
+                while !self.wire[to].is_empty() && !self.ended {
+                    self.apply(Move::Deliver { to, idx: 0 });
+                }
+            }
+        }
+    }
+    /// Connects and completes the handshake over a perfect wire. Returns true
+    /// when both sides are online (the acceptor goes online with the first
+    /// chunk packet, so a keep-alive flush is exchanged).
+    pub fn handshake(&mut self) -> bool {
+        self.apply(Move::Connect);
+        self.deliver_all(8);
+        if !self.online(0) {
+            return false;
+        }
+        // first chunk packet moves the acceptor from Pending to Online
+        self.apply(Move::Send { side: 0, len: 6, vital: true, fill: 0 });
+        self.apply(Move::Flush(0));
+        self.deliver_all(8);
+        self.online(0) && self.online(1)
+    }
+}
